@@ -100,6 +100,17 @@ def _make_spec(seed):
     rng = random.Random(seed)
     spec = G.gen_spec(rng, dict(OPTS))
     _force_runonce(spec['tree'])
+    # An output with an array ref0 and a scalar ref (or vice versa) read through src_indices fails in
+    # Group._compute_root_scale_factors (np.full(ref0.shape, ref) is taken before ref0 is indexed): a scaling
+    # defect outside this property (C08).  Make both arrays so that array scaling stays in the workload.
+    for c in spec['comps']:
+        for o in c['outputs']:
+            r, r0 = o.get('ref'), o.get('ref0')
+            if isinstance(r, list) != isinstance(r0, list) and (r is not None or r0 is not None):
+                if isinstance(r, list):
+                    o['ref0'] = (np.zeros(o['shape']) + (0.0 if r0 is None else r0)).tolist()
+                else:
+                    o['ref'] = (np.zeros(o['shape']) + (1.0 if r is None else r)).tolist()
     plan = plan_styles(random.Random(seed * 3 + 1), spec)
     crng = random.Random(seed * 7 + 5)
     has_sub = any('group' in ch for ch in spec['tree']['children']) or \
@@ -115,10 +126,11 @@ def _make_spec(seed):
            'double_linearize': crng.random() < 0.3}
     # Two recorded findings make a dtype switch fail loudly: a scipy coo_matrix partial (COOSubjac.set_dtype) and
     # the dictionary application of a rows/cols partial to complex vectors (np.bincount in OMCOOSubjac._apply_*).
-    # Both combinations are kept in a small share of the cases only ('known_share'), so that the dtype-switch
-    # histories of all other cases stay judgeable; see `_dict_rowcol`.
-    cfg['known_share'] = crng.random() < 0.12
-    if cfg['newton'] and not cfg['known_share']:
+    # A third one: a component's dictionary Jacobian keeps cached real views when an assembled ancestor switched
+    # the shared values first (`_dict_under_assembled`).  Each combination is kept in a small share of the cases
+    # only ('known_share'), so that the dtype-switch histories of all other cases stay judgeable.
+    cfg['known_share'] = crng.choice([None] * 21 + ['coo', 'rowcol', 'stale-views'])
+    if cfg['newton'] and cfg['known_share'] != 'coo':
         for ent in plan.values():
             for d in ent['pk'].values():
                 if d['style'] == 'coo':
@@ -270,13 +282,13 @@ def _reference(tb, path, comps, dtype):
             'dup_within': dup_within, 'dup_across': bool(cnt.max(initial=0) > 1)}
 
 
-def _vecs(seed, phase, names_sizes, cplx, lo=-1.0, hi=1.0):
+def _vecs(seed, phase, names_sizes, cplx, lo=-1.0, hi=1.0, imag=1.0):
     """deterministic name -> vector (same for every format of a case)."""
     rng = np.random.default_rng([seed, phase])
     out = {}
     for n, sz in names_sizes:
         v = rng.uniform(lo, hi, sz)
-        w = rng.uniform(lo, hi, sz)
+        w = rng.uniform(-imag, imag, sz)
         out[n] = v + 1j * w if cplx else v
     return out
 
@@ -390,7 +402,8 @@ def _model_case(case, acc):
                     elif what == 'back':
                         prob.set_complex_step_mode(False)
                     # ---- new linearization point: same state for every format ------------------------
-                    u = _vecs(seed, 100 + ph, all_out, cplx, -1.5, 1.5)
+                    # (imaginary parts stay small: unit factors up to 1e3 feed them into cos/sin of the components)
+                    u = _vecs(seed, 100 + ph, all_out, cplx, -1.5, 1.5, imag=1e-3)
                     for n, _ in all_out:
                         _put(model._outputs, n, u[n])
                     model.run_apply_nonlinear()          # transfers the inputs
@@ -404,6 +417,8 @@ def _model_case(case, acc):
                     if cfg['double_linearize'] and ph == 1:
                         model.run_linearize()
                     dtype = complex if cplx else float
+                    seeds = [(_vecs(seed, 1000 + 10 * ph + j, all_out, cplx), _vecs(seed, 2000 + 10 * ph + j, all_in, cplx),
+                              _vecs(seed, 3000 + 10 * ph + j, all_out, cplx)) for j in range(2)]
                     for s in systems:
                         path = s.pathname
                         ref = _reference(tb, path, comps, dtype)
@@ -414,7 +429,9 @@ def _model_case(case, acc):
                         drive = True
                         known_rc = cplx and _dict_rowcol(om, s, comps)
                         known_sv = cplx and _dict_under_assembled(om, s, comps, sysmap)
-                        if (known_rc or known_sv) and not cfg['known_share']:
+                        if (known_rc or known_sv) and not (
+                                (cfg['known_share'] == 'rowcol' and known_rc and not known_sv) or
+                                (cfg['known_share'] == 'stale-views' and known_sv and not known_rc)):
                             acc.count('avoided:known-dict-application-failure-under-complex')
                             drive = False
                         if jac is not None:
@@ -453,10 +470,14 @@ def _model_case(case, acc):
                             acc.count({'root': 'obs:root-assembled', 'group': 'obs:subgroup-assembled',
                                        'comp': 'obs:comp-level-assembled'}[level])
                         # ---- products ---------------------------------------------------------------------
-                        for j in range(2 if drive else 0):
-                            vo = _vecs(seed, 1000 + 10 * ph + j, all_out, cplx)
-                            vi = _vecs(seed, 2000 + 10 * ph + j, all_in, cplx)
-                            vr = _vecs(seed, 3000 + 10 * ph + j, all_out, cplx)
+                        # a component without an assembled Jacobian applies the same dictionary Jacobian in all four
+                        # problems: it is driven in the dictionary problem, and in the others only around the dtype
+                        # switch (its sub-Jacobian values are shared with the assembled Jacobians above it)
+                        nj = 2
+                        if level == 'comp' and jac is None:
+                            nj = 1 if (fmt == 'dict' or what in ('complex', 'back')) else 0
+                        for j in range(nj if drive else 0):
+                            vo, vi, vr = seeds[j]
                             # reverse mode never runs under complex step (Newton solves forward): fwd only there
                             for mode in (('fwd',) if cplx else ('fwd', 'rev')):
                                 try:
@@ -514,7 +535,7 @@ def _model_case(case, acc):
                     acc.skip('ill-conditioned-lu')
                     return
                 tag = 'run:phase=%s' % what
-                if what == 'complex' and 'coo_matrix' in msg and cfg['known_share']:
+                if what == 'complex' and 'coo_matrix' in msg and cfg['known_share'] == 'coo':
                     tag = 'complex-switch:scipy-coo-partial'
                 acc.viol(exc_key(tag, e),
                          '%s: %s [fmt=%s placement=%s]' % (type(e).__name__, msg[:300], fmt, cfg['placement']), case)
@@ -601,5 +622,259 @@ def _ill_conditioned(tb, comps, systems):
 # =====================================================================================================
 # matrix layer
 # =====================================================================================================
+MATRIX_CLASSES = ('DenseMatrix', 'COOMatrix', 'CSCMatrix', 'CSRMatrix')
+
+
+def _gen_matrix_case(seed):
+    """JSON-able structural description of a sub-Jacobian set + update history (values come from seeded rngs)."""
+    rng = random.Random(seed)
+    kind = rng.choice(['drdo', 'drdo', 'drdi'])
+    nof = rng.randint(1, 3)
+    rsz = [rng.randint(1, 4) for _ in range(nof)]
+    if kind == 'drdo':
+        csz = list(rsz)                      # square: the columns are the same variables
+    else:
+        csz = [rng.randint(1, 4) for _ in range(rng.randint(1, 3))]
+    history = []
+    cplx_now = False
+    for _ in range(rng.randint(1, 5)):
+        if rng.random() < 0.3:
+            cplx_now = not cplx_now
+        history.append({'complex': cplx_now, 'change': rng.choice(['all', 'all', 'some', 'none'])})
+    has_cplx = any(h['complex'] for h in history)
+    subs = []
+    nsub = rng.randint(1, 5)
+    for k in range(nsub):
+        ro = rng.randrange(nof)
+        co = rng.randrange(len(csz))
+        m, nsrc = rsz[ro], csz[co]
+        sj = {'row': ro, 'col': co}
+        if kind == 'drdo' and rng.random() < 0.55:
+            L = rng.randint(1, 4)
+            sj['src_indices'] = [rng.randrange(-nsrc, nsrc) for _ in range(L)]
+            n = L
+        else:
+            n = nsrc
+        if kind == 'drdo' and rng.random() < 0.4:
+            sj['factor'] = rng.choice([1000.0, 0.3048, 0.001, 60.0, 2.5])
+        styles = ['dense', 'rowcol', 'rowcol', 'csr', 'csc'] + ([] if has_cplx else ['coo', 'coo_dup'])
+        if m == n:
+            styles.append('diag')
+        st = rng.choice(styles)
+        sj['style'] = st
+        sj['n'] = n
+        if st in ('rowcol', 'coo', 'coo_dup', 'csr', 'csc'):
+            nnz = rng.randint(1, max(1, (m * n * 2) // 3))
+            cells = [(r, c) for r in range(m) for c in range(n)]
+            rng.shuffle(cells)
+            ent = cells[:nnz]
+            if st in ('rowcol', 'coo_dup') and rng.random() < 0.5:
+                ent = ent + [rng.choice(ent) for _ in range(rng.randint(1, 2))]      # duplicates inside the subjac
+                rng.shuffle(ent)
+            sj['rows'] = [e[0] for e in ent]
+            sj['cols'] = [e[1] for e in ent]
+        sj['declared_val'] = rng.choice(['none', 'array', 'scalar']) if st in ('dense', 'rowcol', 'diag') else 'array'
+        subs.append(sj)
+    return {'kind': kind, 'rsz': rsz, 'csz': csz, 'subs': subs, 'history': history,
+            'mask': rng.choice([None, 'array', 'slice'])}
+
+
 def _matrix_case(case, acc):
-    acc.skip('matrix-layer-not-built')
+    import scipy.sparse as sp
+    from openmdao.jacobians.subjac import Subjac, SUBJAC_META_DEFAULTS
+    from openmdao.utils.indexer import indexer
+    from openmdao.matrices.dense_matrix import DenseMatrix
+    from openmdao.matrices.coo_matrix import COOMatrix
+    from openmdao.matrices.csc_matrix import CSCMatrix
+    from openmdao.matrices.csr_matrix import CSRMatrix
+    classes = {'DenseMatrix': DenseMatrix, 'COOMatrix': COOMatrix, 'CSCMatrix': CSCMatrix, 'CSRMatrix': CSRMatrix}
+    seed = case['seed']
+    desc = _gen_matrix_case(seed)
+    roff = np.concatenate([[0], np.cumsum(desc['rsz'])]).astype(int)
+    coff = np.concatenate([[0], np.cumsum(desc['csz'])]).astype(int)
+    nr, nc = int(roff[-1]), int(coff[-1])
+    feats = set()
+
+    def nvals(sj):
+        m = desc['rsz'][sj['row']]
+        if sj['style'] == 'dense':
+            return m * sj['n']
+        if sj['style'] == 'diag':
+            return m
+        return len(sj['rows'])
+
+    def triplets(sj):
+        m, n = desc['rsz'][sj['row']], sj['n']
+        if sj['style'] == 'dense':
+            return np.repeat(np.arange(m), n), np.tile(np.arange(n), m)
+        if sj['style'] == 'diag':
+            return np.arange(m), np.arange(m)
+        return np.asarray(sj['rows']), np.asarray(sj['cols'])
+
+    def to_val(sj, vals):
+        m, n = desc['rsz'][sj['row']], sj['n']
+        st = sj['style']
+        if st == 'dense':
+            return vals.reshape(m, n)
+        if st in ('rowcol', 'diag'):
+            return vals
+        r, c = triplets(sj)
+        M = sp.coo_matrix((vals, (r, c)), shape=(m, n))
+        if st == 'csr':
+            return M.tocsr()
+        if st == 'csc':
+            return M.tocsc()
+        return M
+
+    def make_subjacs(vals0):
+        out = {}
+        for k, sj in enumerate(desc['subs']):
+            m, n = desc['rsz'][sj['row']], sj['n']
+            meta = dict(SUBJAC_META_DEFAULTS)
+            meta['shape'] = (m, n)
+            st = sj['style']
+            r, c = triplets(sj)
+            dv = sj['declared_val']
+            if st == 'dense':
+                meta['val'] = None if dv == 'none' else (0.5 if dv == 'scalar' else vals0[k].reshape(m, n))
+            elif st == 'rowcol':
+                meta['rows'], meta['cols'] = r.copy(), c.copy()
+                meta['val'] = None if dv == 'none' else (0.5 if dv == 'scalar' else vals0[k])
+            elif st == 'diag':
+                meta['diagonal'] = True
+                meta['val'] = None if dv == 'none' else (0.5 if dv == 'scalar' else vals0[k])
+            else:
+                meta['val'] = to_val(sj, vals0[k])
+            cls = Subjac.get_subjac_class(meta)
+            meta = cls._update_instance_meta(meta, None, ('of%d' % k, 'wrt%d' % k))
+            src_inds = None
+            if 'src_indices' in sj:
+                nsrc = desc['csz'][sj['col']]
+                src_inds = [indexer(np.array(sj['src_indices'], dtype=int), src_shape=(nsrc,), flat_src=True)]
+            key = ('of%d' % sj['row'], 'in%d' % k)
+            out[key] = (cls(key, meta, slice(int(roff[sj['row']]), int(roff[sj['row'] + 1])),
+                            slice(int(coff[sj['col']]), int(coff[sj['col'] + 1])), False, np.dtype(float), src_inds,
+                            sj.get('factor'), 'src%d' % sj['col']), k)
+        return out
+
+    def reference(cur, dtype):
+        D = np.zeros((nr, nc), dtype=dtype)
+        cnt = np.zeros((nr, nc), dtype=int)
+        for k, sj in enumerate(desc['subs']):
+            r, c = triplets(sj)
+            if 'src_indices' in sj:
+                nsrc = desc['csz'][sj['col']]
+                c = np.arange(nsrc)[np.array(sj['src_indices'], dtype=int)][c]        # NumPy positions
+                feats.add('srcidx')
+            v = cur[k] * sj.get('factor', 1.0)
+            if 'factor' in sj:
+                feats.add('factor')
+            np.add.at(D, (roff[sj['row']] + r, coff[sj['col']] + c), v)
+            sub = np.zeros_like(cnt)
+            np.add.at(sub, (roff[sj['row']] + r, coff[sj['col']] + c), 1)
+            if sub.max() > 1:
+                feats.add('dupw')
+            cnt += np.minimum(sub, 1)
+        if cnt.max(initial=0) > 1:
+            feats.add('dupx')
+        return D
+
+    def K(what, cls, phase):
+        return 'matrix:%s:%s:%s:%s' % (what, cls, phase, '+'.join(sorted(feats)) or 'plain')
+
+    vrng = np.random.default_rng([seed, 1])
+    vals0 = [vrng.uniform(-2, 2, nvals(sj)) for sj in desc['subs']]
+    bad = []
+    for cname in MATRIX_CLASSES:
+        vr = np.random.default_rng([seed, 2])           # same value history for every class
+        try:
+            subjacs = make_subjacs(vals0)
+            submats = {k: v[0] for k, v in subjacs.items()}
+            M = classes[cname](submats)
+            M._build(nr, nc, float)
+        except Exception as e:
+            acc.viol(exc_key('matrix:build:%s' % cname, e), '%s: %s' % (type(e).__name__, str(e)[:200]), case)
+            return
+        # current values as the Subjac objects hold them after construction
+        cur = []
+        for k, sj in enumerate(desc['subs']):
+            dv = sj['declared_val']
+            cur.append(np.zeros(nvals(sj)) if dv == 'none' else
+                       (np.full(nvals(sj), 0.5) if dv == 'scalar' else vals0[k].copy()))
+        jdtype = 'f'
+        try:
+            for step, h in enumerate(desc['history']):
+                cplx = h['complex']
+                dtype = np.dtype(complex if cplx else float)
+                phase = ('complex' if cplx else 'real') + ('-first' if step == 0 else '')
+                if (jdtype == 'c') != cplx:
+                    phase += '-after-switch'
+                    for sjo, k in subjacs.values():           # what Jacobian._pre_update does on a dtype change
+                        sjo.set_dtype(dtype)
+                    jdtype = 'c' if cplx else 'f'
+                    if not cplx:
+                        cur = [c_.real.copy() for c_ in cur]
+                    acc.count('obs:matrix-dtype-switch')
+                for (sjo, k) in subjacs.values():
+                    sj = desc['subs'][k]
+                    ch = h['change'] == 'all' or (h['change'] == 'some' and vr.random() < 0.5)
+                    nv = vr.uniform(-2, 2, nvals(sj))
+                    if cplx:
+                        nv = nv + 1j * vr.uniform(-2, 2, nvals(sj))
+                    if ch:
+                        sjo.set_val(to_val(sj, nv))
+                        cur[k] = nv
+                M._pre_update(dtype)
+                for sjo, k in subjacs.values():
+                    M._update_from_submat(sjo, None)
+                M._post_update()
+                if step >= 1:
+                    acc.count('obs:matrix-update>=2')
+                D = reference(cur, dtype)
+                nD = np.linalg.norm(D)
+                T = np.asarray(M.todense())
+                acc.count('obs:matrix-todense')
+                if T.shape != D.shape or not np.max(np.abs(T - D), initial=0.0) <= RTOL * nD:
+                    bad.append((K('todense', cname, phase), '%s todense differs from D at step %d' % (cname, step)))
+                v = vr.uniform(-1, 1, nc) + (1j * vr.uniform(-1, 1, nc) if cplx else 0.0)
+                w = vr.uniform(-1, 1, nr) + (1j * vr.uniform(-1, 1, nr) if cplx else 0.0)
+                mask = None
+                if desc['mask'] == 'array':
+                    mask = np.unique(vr.integers(0, nc, size=max(1, nc // 2)))
+                elif desc['mask'] == 'slice':
+                    a = int(vr.integers(0, nc))
+                    mask = slice(a, int(vr.integers(a, nc + 1)))
+                for mode, x, mk in (('fwd', v, None), ('rev', w, None), ('fwd', v, mask)):
+                    x0 = x.copy()
+                    got = np.asarray(M._prod(x, mode, mk) if mk is not None else M._prod(x, mode)).ravel()
+                    xm = x0.copy()
+                    if mk is not None:
+                        xm[mk] = 0.0
+                        acc.count('obs:matrix-mask')
+                    exp = D @ xm if mode == 'fwd' else D.T @ xm
+                    acc.count('cell:%s/%s' % (cname, mode))
+                    tol = RTOL * nD * np.linalg.norm(x0) + 1e-300
+                    if got.shape != exp.shape or not np.max(np.abs(got - exp), initial=0.0) <= tol:
+                        bad.append((K('prod-%s%s' % (mode, '-masked' if mk is not None else ''), cname, phase),
+                                    '%s _prod %s differs from D at step %d' % (cname, mode, step)))
+                    if not np.array_equal(x, x0):
+                        bad.append((K('prod-modifies-input', cname, phase), '%s _prod changed its input' % cname))
+        except Exception as e:
+            bad.append((exc_key('matrix:update:%s' % cname, e), '%s: %s' % (type(e).__name__, str(e)[:200])))
+    for f_, cn in (('dupw', 'obs:dup-within-subjac'), ('dupx', 'obs:dup-across-subjacs'), ('srcidx', 'obs:src_indices'),
+                   ('factor', 'obs:unit-factor')):
+        if f_ in feats:
+            acc.count(cn)
+    if bad:
+        seen, first = set(), True
+        for key, what in bad:
+            if key in seen:
+                continue
+            seen.add(key)
+            acc.viol(key, what, case, new_case=first)
+            first = False
+        return
+    d2 = {'kind': desc['kind'], 'styles': sorted(set(sj['style'] for sj in desc['subs'])), 'feats': sorted(feats),
+          'hist': [(h['complex'], h['change']) for h in desc['history']], 'mask': desc['mask'],
+          'layout': [desc['rsz'], desc['csz']], 'nsub': len(desc['subs'])}
+    acc.ok(fingerprint(d2), nontrivial=bool(feats), sample=dict(d2, seed=seed, layer='matrix'))
